@@ -1,6 +1,7 @@
 #!/usr/bin/env python3
 # tools/try_bounds.py <id> <entry> '<json tier bounds>' : run one harness at ad-hoc thorough bounds (spec restored afterwards)
-import json,sys,subprocess,shutil,os
+import json,sys,subprocess,shutil,os,signal
+signal.signal(signal.SIGTERM, lambda *a: sys.exit(143))
 pid,entry,b=sys.argv[1],sys.argv[2],json.loads(sys.argv[3])
 p='/verif/harness/%s/spec.json'%pid
 bak=p+'.bak'; shutil.copy(p,bak)
